@@ -275,6 +275,11 @@ func VC11_SamePair_Quick() {
 	vc11(tmplCfg{outputs: 1, hidden: 1, genes: 3, traits: 1, params: 1, symRecur: true, symEnable: true,
 		links: [][2]int{{0, 3}, {3, 2}, {3, 2}}}, false)
 }
+func VC11_LateInput_Quick() {
+	// node list not grouped by role: an input sensor with the last id
+	vc11(tmplCfg{outputs: 1, hidden: 1, genes: 3, traits: 1, params: 1, symRecur: false, symEnable: true, lateInput: true,
+		links: [][2]int{{0, 2}, {4, 3}, {3, 2}}}, false)
+}
 func VC11_Module_Quick() {
 	vc11(tmplCfg{outputs: 1, hidden: 0, genes: 2, traits: 1, params: 1, symRecur: false, symEnable: true, fixedBase: true}, true)
 }
